@@ -96,3 +96,63 @@ Definition admissible (l : list stage) (fault : nat -> option exn) : Prop :=
 
 Definition safe_table (l : list stage) : bool :=
   forallb (fun s => forallb (caught s) (st_raises s)) l.
+
+(* ------------------------------------------------------------------------------------------------
+   Site-level exception flow.  Gen/MainFlow.v (py/translate_main.py, regenerated from main's syntax
+   tree on every run) lists every place in main, after argument parsing, where one of the following
+   primitives is performed, with the exception kinds the try statements around that place turn into
+   the diagnostic.  What a primitive can raise on syntactically well-formed but arbitrary values is
+   transcribed knowledge about Python and pymininec (checked by the `main` row correspondence and
+   by the mutation oracle on the real program); that none of it escapes is proved from the
+   generated list (Proofs/MainFlowP.v). *)
+Inductive prim :=
+| PInt | PFloat | PUnpack          (* int (s), float (s), a, b = generator: ValueError *)
+| PGeoCtor | PTags                 (* Arc / Helix / Wire constructors, compute_tags: ValueError *)
+| PTransform | PScale | PByTag     (* rotate / translate by tag, scale by tag, by_tag [tag] *)
+| PMedium | PMininec               (* Medium (), Mininec (): segmentation, ground, connections *)
+| PExcitation | PAssert            (* Excitation (): stores its arguments; assert on a value main has just set *)
+| PRegSource | PRegLoad
+| PLoadCtor | PFloatList | PDistLoad
+| PFixDist                         (* registers existing distributed loads on junction pulses of the same model *)
+| PAngle
+| POpen | PWrite | PBasic | PCmdline
+| PSweepArith                      (* frequency + (steps - 1) * increment with an arbitrarily large integer *)
+| PSetFreq                         (* frequency setter, argument inside the guarded range (Proofs/MainFlowP.v) *)
+| PCompute | PNear | PFar
+| PReport | PReportGeo             (* number formatting raises on non-finite values; geometry is finite by the guards *)
+| PRaiseValue | PRaiseArith.       (* explicit raise ValueError / ArithmeticError of a guard *)
+
+Definition prim_raises (p : prim) : list exn :=
+  match p with
+  | PInt | PFloat | PUnpack | PGeoCtor | PTags | PMedium | PRegSource | PLoadCtor | PFloatList | PDistLoad | PRaiseValue => [EValue]
+  | PTransform | PScale | PRegLoad => [EValue; EKey]
+  | PByTag => [EKey]
+  | PMininec => [EValue; EAssert]
+  | PAngle => [EValue; EType; EOther]
+  | POpen | PWrite => [EOs]
+  | PBasic => [ENotImpl]
+  | PSweepArith => [EOverflow]
+  | PCompute => ELinAlg :: EMemory :: arith
+  | PNear | PFar => EValue :: EMemory :: arith
+  | PReport => [EValue; EOverflow]
+  | PRaiseArith => arith
+  | PExcitation | PAssert | PFixDist | PCmdline | PSetFreq | PReportGeo => []
+  end.
+
+Record site := mkSite {
+  s_line : BinNums.Z;           (* source line, informational *)
+  s_prim : prim;
+  s_catches : list exn;         (* kinds turned into the diagnostic by the enclosing try statements *)
+  s_all : bool;                 (* an enclosing `except Exception` *)
+}.
+
+Definition site_caught (s : site) (e : exn) : bool := s_all s || existsb (exn_eqb e) (s_catches s).
+Definition site_safe (s : site) : bool := forallb (site_caught s) (prim_raises (s_prim s)).
+
+(* an execution of main: the first primitive that raises (position k in program order, any iteration of the loop
+   it is in) decides the ending *)
+Definition run_site (l : list site) (k : nat) (e : exn) : outcome :=
+  match nth_error l k with
+  | Some s => if site_caught s e then Diag k else Uncaught k e
+  | None => Report
+  end.
